@@ -14,13 +14,13 @@ PLAN = {
 }
 
 
-def run_conc(binp, what, seed, tier, tag, race=False):
+def run_conc(binp, what, seed, tier, tag, race=False, owner=""):
     outp = os.path.join(WD, "conc-%s.out" % tag)
     fams = [w for w in what.split(",") if w != "limit"]
     out_all = ""
     rc_all = 0
     if fams:
-        rc, out = sh("%s -seed %d -tier %s -what %s" % (binp, seed, tier, ",".join(fams)), timeout=900, cwd=WD)
+        rc, out = sh("%s -seed %d -tier %s -what %s%s" % (binp, seed, tier, ",".join(fams), (" -owner " + owner) if owner else ""), timeout=1500, cwd=WD)
         out_all += out
         rc_all = rc
     if "limit" in what.split(","):
@@ -81,11 +81,11 @@ def run_conc_property(run):
         run.cov.update({"obligations": total, "discharged": done, "checker_cmd": "make -C coq " + plan["props"] + "o", "trusted_base": TRUSTED_COMMON,
                         "evaluations": 1, "distinct_nontrivial": 0, "samples": []})
         return
-    rc, out = run_conc(binp, plan["what"], run.seed, run.tier, pid)
+    rc, out = run_conc(binp, plan["what"], run.seed, run.tier, pid, owner=pid)
     fails, scens, races, panic = parse(out)
     race_scens = []
     if plan.get("race") and okr:
-        rc2, out2 = run_conc(binr, "api,closerace", run.seed + 1, run.tier, pid + "-race")
+        rc2, out2 = run_conc(binr, "api,closerace", run.seed + 1, run.tier, pid + "-race", owner=pid)
         f2, race_scens, races, panic2 = parse(out2)
         fails += f2
         panic = panic or panic2
